@@ -2,7 +2,7 @@
    Ck/CkDtProofs.v / Ck/CkDtObs.v and followed by Print Assumptions.
    Model: Ck/CkFull.v (dt_in_effect, dt_is_triggered, dt_is_expired, dt_can_be_triggered, trigger_dt,
    trigger_all, do_dt_add, remove_dt, do_dt_start_timer, do_dt_cleanup, do_result). *)
-From Icv Require Import Base.Tac Ck.CkState Ck.CkFull Ck.CkDtDefs Ck.CkDtProofs Ck.CkDtObs Ck.CkDtTimer Ck.CkDtTimerProofs.
+From Icv Require Import Base.Tac Ck.CkState Ck.CkFull Ck.CkDtDefs Ck.CkDtProofs Ck.CkDtChain Ck.CkDtObs Ck.CkDtTimer Ck.CkDtTimerProofs.
 Local Open Scope Z_scope.
 
 (* ---- in effect: fixed throughout [start,end); flexible for duration seconds from the trigger time ---- *)
@@ -61,14 +61,33 @@ Theorem C05_trigger_on_result : forall c now prev f o,
 Proof. exact step_check_result. Qed.
 Print Assumptions C05_trigger_on_result.
 
-(* ---- chained triggers: triggering d triggers every downtime directly chained to it (same instant, each
-   subject to its own window).  chain_fuel = number of downtimes + 1 >= 2 whenever d exists. ---- *)
-Theorem C05_chain : forall n now p id t ds d c,
-  NoDup (ids ds) -> find_dt id ds = Some d -> dt_can_be_triggered now d = true ->
-  In (d_id c) (d_triggers d) -> In c ds -> d_trigger c = 0 -> c5_inwin now c = true ->
-  find_dt (d_id c) (fst (trigger_dt (S (S n)) now p id t ds)) = Some (set_trig c t).
-Proof. exact trigger_dt_children. Qed.
+(* ---- chained triggers, EVERY level.  Ord: in creation order no downtime lists itself or anything created before it in
+   `triggers` (an invariant: Downtime::AddDowntime takes the trigger downtime as an existing object and appends the new
+   name to its `triggers` after creating the new object; C05_chain_order).  Under Ord the recursion only moves
+   forward in the list, so any fuel above the number of downtimes behind the root (chain_fuel = all of them + 1) is
+   never exhausted, and one TriggerDowntime(t) call on an untriggered downtime inside its window gives every downtime
+   reachable from it through `triggers` along untriggered downtimes inside their own windows the same trigger time t. ---- *)
+Theorem C05_chain : forall fuel now p id t ds cid,
+  NoDup (ids ds) -> Ord ds -> t <> 0 -> (sfx id ds < fuel)%nat ->
+  chain_path now ds id cid -> c5_trig_of cid (fst (trigger_dt fuel now p id t ds)) = t.
+Proof. exact chain_all_levels. Qed.
 Print Assumptions C05_chain.
+
+(* the same as a closure property of every call (also for roots that are not triggered themselves): whatever the call
+   changes has handed t to each untriggered, in-window downtime it lists *)
+Theorem C05_chain_closed : forall fuel now p id t ds,
+  NoDup (ids ds) -> Ord ds -> (forall d, find_dt id ds = Some d -> (sfx id ds < fuel)%nat) ->
+  Closed now t ds (fst (trigger_dt fuel now p id t ds)).
+Proof. exact trigger_dt_closed. Qed.
+Print Assumptions C05_chain_closed.
+
+(* creation order is preserved by every operation of the quantifier (names may even be reused after a removal: the new
+   object is last and nothing is chained to ... by it yet; a downtime that still lists the reused name then has the new
+   object as an additional chained downtime - it is resolved by name at trigger time, exactly as in the code) *)
+Theorem C05_chain_order : forall c now prev f o,
+  DtInv now f -> Ord (f_dts f) -> c5_wf_step prev (c5_mk c now f o) = true -> Ord (f_dts (fst (full_step c now f o))).
+Proof. exact step_Ord. Qed.
+Print Assumptions C05_chain_order.
 
 (* ---- removal: the survivors of RemoveDowntime are a sub-list of what was there (nothing else changes) ---- *)
 Theorem C05_remove_survivors : forall fuel now p id ch r ds,
@@ -110,10 +129,9 @@ Print Assumptions C05_trigger_on_add.
 
 (* ---- the oracle run over implementation traces: for all operation sequences of C05's quantifier (monotone
    positive clock, results not from the future, fresh names: c5_wf_run) that show none of the recorded findings'
-   signatures (c5_clean_run), every step of the model's trace passes every check of the oracle except check 10
-   (OnDowntimeTriggered events, validated on the generated population only) ---- *)
+   signatures (c5_clean_run), every step of the model's trace passes EVERY check (1-12) of the base oracle ---- *)
 Theorem C05_oracle_accepts_model : forall c h prev f,
-  DtInv2 prev f -> c5_wf_run c prev f h = true -> c5_clean_run c f h = true ->
+  DtInv3 prev f -> c5_wf_run c prev f h = true -> c5_clean_run c f h = true ->
   Forall (fun s => c5_step_all (c_kind (fc_base c)) s = true) (c5_model_trace c f h).
 Proof. exact model_trace_all_checks. Qed.
 Print Assumptions C05_oracle_accepts_model.
@@ -198,7 +216,7 @@ Print Assumptions C05_start_at_end_instant_fixed.
    a non-OK result, a depth read, a clean-up and a removal meets every premise, shows none of the findings'
    signatures, and the complete oracle accepts it with two DowntimeStart and two DowntimeEnd requests *)
 Example C05_nonvacuous_premises :
-  DtInv2 0 init_full /\ c5_wf_run wit_cfg 0 init_full wit_clean = true /\ c5_clean_run wit_cfg init_full wit_clean = true.
+  DtInv3 0 init_full /\ c5_wf_run wit_cfg 0 init_full wit_clean = true /\ c5_clean_run wit_cfg init_full wit_clean = true.
 Proof. exact clean_run_premises. Qed.
 
 Example C05_nonvacuous :
